@@ -378,11 +378,10 @@ theorem lost_wakeup_repaired_proceeds :
     names are up to date and therefore skipped) is created as an independent copy;
   * `C13/skipped-members-keep-stale-structure` — a group broken up, or formed, in the source with
     equal size and mtime is skipped altogether: the destination keeps the old structure;
-  * `C13/update-writes-through-foreign-link` — a destination inode shared by names of *different*
-    source inodes (the source was regrouped since the last `-H` sync) is rewritten in place by the
-    update of one of them when that source still has `nlink > 1`: an up-to-date, skipped name
-    silently receives another file's content (`break_unshared_hard_link` of 88af04c only covers
-    sources with a single name). This is why `link_structure` needs `Cfg.DstOk.noForeignLinks`.
+  `C13/update-writes-through-foreign-link` (a destination inode shared by names of *different*
+  source inodes was rewritten in place by the update of one of them when that source still had
+  `nlink > 1`) is fixed by 8b4f96e — `foreign_link_not_written_through` below; `link_structure`
+  still carries `Cfg.DstOk.noForeignLinks` as a hypothesis of its invariant.
   `C13/update-splits-link-group` (≥ 10 MiB members each replaced by its own temp file) is fixed
   by a68466f; `uncoordinated_update_splits_link_group` keeps the old behaviour's witness. -/
 
@@ -470,21 +469,29 @@ def foreignCfg : Cfg where
       failMkdir := false, failCopy := false, failMeta := false, failLink := false }
   content := fun i => i
 
-def foreignFinal : State := (runMicro foreignCfg (init foreignCfg) [1, 1, 1, 1, 1, 1, 2, 2]).1
+def foreignFinal : State :=
+  (runMicro foreignCfg (init foreignCfg) [1, 1, 1, 1, 1, 1, 2, 2, 2, 2]).1
 
-/-- **`C13/update-writes-through-foreign-link`**: the update of name `1` rewrites the shared inode
-    in place; the skipped name `0` ends with the content of source inode 2 instead of 1, and all
-    three names share one inode although name `0`'s source is a different file. Every transfer
-    returned `Ok`. The only hypothesis of `link_structure` that fails is `noForeignLinks`. -/
-theorem foreign_link_write_through_counterexample :
+/-- **`C13/update-writes-through-foreign-link`** (*fixed* by 8b4f96e: `break_unshared_hard_link`
+    now replaces every multiply-linked destination name before it is rewritten): the update of name
+    `1` gets a fresh inode, name `2` is removed and re-linked to it, and the skipped name `0` keeps
+    its inode and its content. Every transfer returned `Ok`. -/
+theorem foreign_link_not_written_through :
     Clean foreignCfg ∧ Reachable foreignCfg foreignFinal ∧ allDoneB foreignCfg foreignFinal = true ∧
       foreignFinal.pc 1 = .done .ok ∧ foreignFinal.pc 2 = .done .ok ∧
       (foreignCfg.worker 0).inode ≠ (foreignCfg.worker 1).inode ∧
       foreignCfg.content (foreignCfg.worker 0).inode = 1 ∧
-      foreignFinal.dst 0 = some ⟨100, 2⟩ ∧ foreignFinal.dst 1 = some ⟨100, 2⟩ ∧
-      foreignFinal.dst 2 = some ⟨100, 2⟩ :=
-  ⟨fun _ _ => rfl, ⟨_, exec_of_runMicro [1, 1, 1, 1, 1, 1, 2, 2] (init foreignCfg) rfl⟩,
+      foreignFinal.dst 0 = some ⟨100, 1⟩ ∧ foreignFinal.dst 1 = some ⟨1, 2⟩ ∧
+      foreignFinal.dst 2 = some ⟨1, 2⟩ :=
+  ⟨fun _ _ => rfl, ⟨_, exec_of_runMicro [1, 1, 1, 1, 1, 1, 2, 2, 2, 2] (init foreignCfg) rfl⟩,
     rfl, rfl, rfl, by decide, rfl, rfl, rfl, rfl⟩
+
+/-- … and the witness of the old behaviour, kept so that the violation stays visible: an in-place
+    rewrite (`writeThrough`) of name `1` while name `0` still shares its inode hands name `0` the
+    other file's content. -/
+theorem write_through_shared_inode_damages_other_name :
+    writeThrough (init foreignCfg).dst 1 2 0 = some ⟨100, 2⟩ ∧ (init foreignCfg).dst 0 = some ⟨100, 1⟩ :=
+  ⟨rfl, rfl⟩
 
 /-! ### a single `sync_file_with_delta` in isolation (the pre-a68466f update of a group member) -/
 
@@ -589,12 +596,12 @@ example : (runMicro (upd true) (init (upd true)) (updSched ++ [1, 1, 2, 2])).1.d
     (runMicro (upd true) (init (upd true)) (updSched ++ [1, 1, 2, 2])).1.dst 2 = some ⟨0, 7⟩ ∧
     allDoneB (upd true) (runMicro (upd true) (init (upd true)) (updSched ++ [1, 1, 2, 2])).1 = true :=
   ⟨rfl, rfl, rfl, rfl⟩
-/-- below the gate: the owner writes through inode 100; the other names already name it and have
-    nothing to do. -/
-example : (runMicro (upd false) (init (upd false)) updSched).1.dst 0 = some ⟨100, 7⟩ ∧
-    (runMicro (upd false) (init (upd false)) updSched).1.dst 1 = some ⟨100, 7⟩ ∧
-    (runMicro (upd false) (init (upd false)) updSched).1.dst 2 = some ⟨100, 7⟩ ∧
-    allDoneB (upd false) (runMicro (upd false) (init (upd false)) updSched).1 = true :=
+/-- below the gate the same happens since 8b4f96e: the destination name is multiply linked, so it
+    is replaced (fresh inode 0) rather than written through, and the other names are re-linked. -/
+example : (runMicro (upd false) (init (upd false)) (updSched ++ [1, 1, 2, 2])).1.dst 0 = some ⟨0, 7⟩ ∧
+    (runMicro (upd false) (init (upd false)) (updSched ++ [1, 1, 2, 2])).1.dst 1 = some ⟨0, 7⟩ ∧
+    (runMicro (upd false) (init (upd false)) (updSched ++ [1, 1, 2, 2])).1.dst 2 = some ⟨0, 7⟩ ∧
+    allDoneB (upd false) (runMicro (upd false) (init (upd false)) (updSched ++ [1, 1, 2, 2])).1 = true :=
   ⟨rfl, rfl, rfl, rfl⟩
 /-- `updateSmall` on a linked pair: both names show the new content, still one inode. -/
 example : updateSmall linkedPair 0 9 1 = some ⟨5, 9⟩ := rfl
